@@ -1,5 +1,6 @@
 """C05 - MATLAB call-site ids and the MEX dispatch table always agree (Engine I)."""
 from .. import rules_ids as RI
+from .. import rules_matlab as RM
 
 ID = "C05"
 EXPLANATION = (
@@ -30,3 +31,5 @@ def run(ctx, rep):
     rep.run(RI.rule_offsets, ctx, rep, "I4")
     rep.run(RI.rule_replay_loops, ctx, rep, "I5")
     rep.run(RI.rule_roles, ctx, rep, "I6")
+    # I3 (consumer side): all overloads of a name share one .m file, so no id loses its call site by overwriting
+    rep.run(RM.rule_group_by_name, ctx, rep, "I3")
